@@ -1,6 +1,8 @@
 package main
 
 import (
+	"strconv"
+	"os"
 	"fmt"
 	"go/ast"
 	"go/token"
@@ -38,6 +40,7 @@ var detFuncs = map[string]bool{
 	"crypto/sha256.Sum256": true, "bytes.Equal": true, "math.Pow": true, "math.Floor": true, "math.Ceil": true,
 	"strconv.Quote": true, "strconv.ParseFloat": true, "strconv.ParseBool": true,
 	// time.Time / time.Duration arithmetic is a function of its operands (time.Now / time.Since are not)
+	"bytes.Compare": true, "slices.Contains": true, "regexp.MatchString": true,
 	"time.Sub": true, "time.Add": true, "time.IsZero": true, "time.Before": true, "time.After": true, "time.Equal": true,
 	"time.Unix": true, "time.UnixNano": true, "time.Seconds": true, "time.Compare": true,
 }
@@ -302,8 +305,16 @@ func (x *Exec) unknownEffects(cc *ssa.CallCommon, eff *Effects) {
 		t := a.Type()
 		if mi, ok := a.(*ssa.MakeInterface); ok {
 			t = mi.X.Type()
+			a = mi.X
 		}
 		reachKeys(t, eff, seen)
+		// a function literal handed to a callee that is not followed may be run by
+		// it: everything reachable from the variables it captured may change
+		if mc, ok := a.(*ssa.MakeClosure); ok {
+			for _, b := range mc.Bindings {
+				reachKeys(b.Type(), eff, seen)
+			}
+		}
 	}
 	if !cc.IsInvoke() {
 		if _, ok := cc.Value.(*ssa.Function); !ok {
@@ -569,9 +580,9 @@ func (x *Exec) freshResults(sig *types.Signature, tag string) []Val {
 
 func (x *Exec) callCommon(fr *frame, st *State, cc *ssa.CallCommon, args []Val, reach Term, _ bool, where string) []Val {
 	sig := cc.Signature()
-	saveCC, saveFn := x.curCC, x.curFn
-	x.curCC, x.curFn = cc, fr.fn
-	defer func() { x.curCC, x.curFn = saveCC, saveFn }()
+	saveCC, saveFn, saveArgs := x.curCC, x.curFn, x.curArgs
+	x.curCC, x.curFn, x.curArgs = cc, fr.fn, args
+	defer func() { x.curCC, x.curFn, x.curArgs = saveCC, saveFn, saveArgs }()
 	if cc.IsInvoke() {
 		recv := x.val(fr, cc.Value)
 		mname := cc.Method.Name()
@@ -626,6 +637,7 @@ func (x *Exec) callCommon(fr *frame, st *State, cc *ssa.CallCommon, args []Val, 
 }
 
 func (x *Exec) havocCall(st *State, cc *ssa.CallCommon, what string) {
+	x.noteEscapes(x.curArgs)
 	eff := newEffects()
 	x.unknownEffects(cc, eff)
 	if eff.All || len(eff.Keys) > 0 {
@@ -646,6 +658,9 @@ func (x *Exec) staticCall(fr *frame, st *State, f *ssa.Function, cc *ssa.CallCom
 		return r
 	}
 	x.e.ensureBuilt(f)
+	if os.Getenv("GOVC_DBG") != "" && strings.Contains(full, os.Getenv("GOVC_DBG")) {
+		fmt.Fprintf(os.Stderr, "DBG staticCall %s key=%s::%s contract=%v\n", full, funcPkgPath(f), funcRelName(f), x.contractFor(f) != nil)
+	}
 	if ct := x.contractFor(f); ct != nil {
 		switch {
 		case ct.Inline && x.canInline(f, fr.depth+1):
@@ -677,6 +692,7 @@ func (x *Exec) staticCall(fr *frame, st *State, f *ssa.Function, cc *ssa.CallCom
 			return x.pureCall(f, args, st)
 		}
 		if noEffectPkgs[pp] || x.isLogPkg(pp) {
+			x.noteEscapes(args)
 			return x.freshResults(sig, sanitize(f.Name()))
 		}
 		x.havocCall(st, cc, "external "+full)
@@ -695,12 +711,34 @@ func (x *Exec) staticCall(fr *frame, st *State, f *ssa.Function, cc *ssa.CallCom
 
 // special-cases library functions with a little known semantics.
 func (x *Exec) special(fr *frame, st *State, f *ssa.Function, full string, args []Val, reach Term) ([]Val, bool) {
+	if o := f.Origin(); o != nil && o.String() == "slices.Contains" && len(args) == 2 {
+		if r, ok := x.sliceContains(st, args[0], args[1]); ok {
+			return []Val{r}, true
+		}
+	}
 	switch full {
-	case "fmt.Errorf", "errors.New":
+	case "errors.New":
 		e := freshVal(x.c, "err", f.Signature.Results().At(0).Type())
 		x.c.Assume(Not(Eq(e.L[0], BVLit(0, 32))))
 		return []Val{e}, true
+	case "fmt.Errorf":
+		// a non-nil error whose text is a function of the format and the operands
+		e := freshVal(x.c, "err", f.Signature.Results().At(0).Type())
+		x.c.Assume(Not(Eq(e.L[0], BVLit(0, 32))))
+		if ts, n, ok := x.fmtOperands(st, args, reach); ok {
+			e.L[1] = x.c.App(fmt.Sprintf("errorf_%d", n), SBV(64), ts...)
+		} else if len(args) > 1 {
+			// unknown number of operands: the text may depend on all of them
+			e.L[1] = x.c.App("errorf_any", SBV(64), append(x.allLeaves(args), x.c.Named("TAINT_operands_of_unknown_arity", SBV(64)))...)
+		}
+		return []Val{e}, true
 	case "fmt.Sprintf", "fmt.Sprint":
+		// with a known number of operands the text is a function of the format and the operands
+		if full == "fmt.Sprintf" {
+			if ts, n, ok := x.fmtOperands(st, args, reach); ok {
+				return []Val{{T: types.Typ[types.String], L: []Term{x.c.App(fmt.Sprintf("sprintf_%d", n), SStr, ts...)}}}, true
+			}
+		}
 		return []Val{freshVal(x.c, "sprintf", types.Typ[types.String])}, true
 	case "errors.Is":
 		a, b := args[0], args[1]
@@ -716,19 +754,52 @@ func (x *Exec) special(fr *frame, st *State, f *ssa.Function, full string, args 
 // pureCall: result is an uninterpreted function of the argument leaves and of
 // the heap arrays type-reachable from the arguments.
 func (x *Exec) pureCall(f *ssa.Function, args []Val, st *State) []Val {
+	byValue, noHeap := false, false
+	if ct := x.e.cs.Funcs[funcPkgPath(f)+"::"+funcRelName(f)]; ct != nil {
+		byValue, noHeap = ct.PureValue, ct.PureRef
+		if noHeap {
+			x.c.Note("%s is treated as a function of its argument values only (objects assumed immutable)", f.String())
+		}
+	}
 	var ts []Term
-	eff := newEffects()
-	seen := map[types.Type]bool{}
 	pts := sigParamTypes(f.Signature)
+	// the heap footprint is the set of heap arrays type-reachable from the
+	// parameters, enumerated statically (so that two applications of the same
+	// function always have the same arity, whatever was touched before)
+	var keys []heapKeySort
+	seenK := map[string]bool{}
 	for k, a := range args {
+		if pt, isPtr := pts[k].Underlying().(*types.Pointer); isPtr && byValue {
+			// `purevalue`: a pointer parameter stands for the value it points to
+			var content Val
+			if a.T != nil && types.Identical(a.T, pt.Elem()) {
+				content = a // a spec passed the value itself
+			} else {
+				content = x.load(st, x.toAddr(a), TTrue)
+			}
+			content = x.scalarize(content)
+			ts = append(ts, content.L...)
+			continue
+		}
 		a = x.scalarize(x.materialize(a, pts[k]))
 		ts = append(ts, a.L...)
-		reachKeys(pts[k], eff, seen)
-	}
-	for _, k := range sortedKeys(x.reg.sorts2()) {
-		if eff.matches(k) {
-			ts = append(ts, x.heapGet(st, k, x.reg.sorts[k]))
+		if noHeap {
+			continue
 		}
+		if sl, isSlice := pts[k].Underlying().(*types.Slice); isSlice && len(a.L) == 3 && scalarElems(sl.Elem()) {
+			// a slice of scalars: the footprint is this slice's own content, not the
+			// whole backing-store heap (stable when unrelated slices change)
+			for _, l := range shape(sl.Elem()) {
+				srt := SArr(SBV(64), SArr(SBV(64), l.Sort))
+				ts = append(ts, Select(x.heapGet(st, sliceKey(sl.Elem(), l.Path), srt), a.L[0]))
+			}
+			continue
+		}
+		staticKeys(pts[k], &keys, seenK, 0)
+	}
+	sort.Slice(keys, func(i, j int) bool { return keys[i].key < keys[j].key })
+	for _, ks := range keys {
+		ts = append(ts, x.heapGet(st, ks.key, ks.srt))
 	}
 	var out []Val
 	sig := f.Signature
@@ -740,6 +811,22 @@ func (x *Exec) pureCall(f *ssa.Function, args []Val, st *State) []Val {
 			// the heap arrays passed depend on which heap keys are known so far, so the
 			// arity is part of the symbol (calls with different footprints are unrelated)
 			v.L[j] = x.c.App(fmt.Sprintf("pure_%s_%d_%s_a%d", f.String(), k, l.Path, len(ts)), l.Sort, ts...)
+		}
+		if sl, isSlice := rt.Underlying().(*types.Slice); isSlice && len(v.L) == 3 && scalarElems(sl.Elem()) && x.specDepth == 0 {
+			// the content of a slice produced by a deterministic function stays what it is
+			// until the slice is handed to a call that is not followed (see havocEffects)
+			for _, l := range shape(sl.Elem()) {
+				known := false
+				for _, la := range x.localArrs {
+					if la.ref == v.L[0].S {
+						known = true
+					}
+				}
+				if !known {
+					x.localArrs = append(x.localArrs, localArr{key: sliceKey(sl.Elem(), l.Path),
+						srt: SArr(SBV(64), SArr(SBV(64), l.Sort)), id: v.L[0], ref: v.L[0].S})
+				}
+			}
 		}
 		out = append(out, v)
 	}
@@ -922,8 +1009,28 @@ func (x *Exec) mapHasArr(st *State, mt types.Type) Term {
 
 func (x *Exec) applyContract(ct *Contract, f *ssa.Function, sig *types.Signature, recv Val, args []Val, st *State, reach Term, where string) []Val {
 	x.usedContracts[ct.PkgPath+"::"+ct.Name] = true
+	x.noteEscapes(args)
+	x.noteEscapes([]Val{recv})
 	names := map[string]Val{}
-	if f != nil {
+	if f != nil && len(f.Params) == 0 && len(args) > 0 {
+		// function of a dependency (no SSA body): names from the signature
+		k := 0
+		if r := f.Signature.Recv(); r != nil {
+			names["recv"] = x.materialize(args[0], r.Type())
+			if r.Name() != "" && r.Name() != "_" {
+				names[r.Name()] = names["recv"]
+			}
+			k = 1
+		}
+		for i := 0; i < f.Signature.Params().Len() && k+i < len(args); i++ {
+			p := f.Signature.Params().At(i)
+			v := x.materialize(args[k+i], p.Type())
+			names[fmt.Sprintf("p%d", i)] = v
+			if p.Name() != "" && p.Name() != "_" {
+				names[p.Name()] = v
+			}
+		}
+	} else if f != nil {
 		for k, p := range f.Params {
 			names[p.Name()] = x.materialize(args[k], p.Type())
 		}
@@ -1013,6 +1120,9 @@ func (x *Exec) applyContract(ct *Contract, f *ssa.Function, sig *types.Signature
 			if !x.inScope(cl) {
 				continue
 			}
+			if mentionsUnbound(cl.Expr, ct.Forall, inst) {
+				continue
+			}
 			g := x.evalBool(cl.Expr, env2, reach)
 			x.assume(Imp(reach, g))
 		}
@@ -1096,6 +1206,11 @@ func (x *Exec) forallInstances(ct *Contract, names map[string]Val) []map[string]
 		for _, n := range keys {
 			add(names[n])
 		}
+		if x.topFrame != nil {
+			for _, p := range x.top.Params {
+				add(x.topFrame.vals[p])
+			}
+		}
 		if len(cands) > 4 {
 			cands = cands[:4]
 		}
@@ -1111,9 +1226,9 @@ func (x *Exec) forallInstances(ct *Contract, names map[string]Val) []map[string]
 			}
 		}
 		if len(next) == 0 {
-			// no candidate: clauses mentioning the constant cannot be used
+			// no candidate: clauses mentioning the constant cannot be used (the others are)
 			x.c.Note("contract %s: no instance for quantified constant %s at a call site", ct.Name, fa.Name)
-			return nil
+			continue
 		}
 		out = next
 	}
@@ -1273,4 +1388,239 @@ func (x *Exec) addFreeVarNames(names map[string]Val, st *State, reach Term) {
 			names[fv.Name()] = x.load(st, x.toAddr(v), reach)
 		}
 	}
+}
+
+type heapKeySort struct {
+	key string
+	srt Sort
+}
+
+// staticKeys enumerates the heap arrays type-reachable from a value of type t
+// (through pointers, slices, maps and struct fields; interface values are not
+// followed, like everywhere else).
+func staticKeys(t types.Type, out *[]heapKeySort, seen map[string]bool, depth int) {
+	if t == nil || depth > 12 {
+		return
+	}
+	add := func(key string, srt Sort) bool {
+		if seen[key] {
+			return false
+		}
+		seen[key] = true
+		*out = append(*out, heapKeySort{key, srt})
+		return true
+	}
+	defer func() { recover() }() // shapes of exotic types: not part of the footprint
+	switch u := t.Underlying().(type) {
+	case *types.Pointer:
+		obj := u.Elem()
+		mark := "visited:" + typeKey(obj)
+		if seen[mark] {
+			return
+		}
+		seen[mark] = true
+		if arr, ok := arrayOf(obj); ok {
+			for _, l := range shape(arr.Elem()) {
+				add(sliceKey(arr.Elem(), l.Path), SArr(SBV(64), SArr(SBV(64), l.Sort)))
+			}
+			staticKeys(arr.Elem(), out, seen, depth+1)
+			return
+		}
+		for _, l := range shape(obj) {
+			if l.Sort.IsArr() {
+				continue // embedded arrays live in their own encoding
+			}
+			add(objKey(obj, l.Path), SArr(SRef, l.Sort))
+		}
+		staticInside(obj, out, seen, depth+1)
+	case *types.Slice:
+		mark := "visited:[]" + typeKey(u.Elem())
+		if seen[mark] {
+			return
+		}
+		seen[mark] = true
+		for _, l := range shape(u.Elem()) {
+			add(sliceKey(u.Elem(), l.Path), SArr(SBV(64), SArr(SBV(64), l.Sort)))
+		}
+		staticInside(u.Elem(), out, seen, depth+1)
+	case *types.Map:
+		mark := "visited:map:" + typeKey(t)
+		if seen[mark] {
+			return
+		}
+		seen[mark] = true
+		ks := shape(u.Key())
+		if len(ks) == 1 {
+			add(mapKey(t, "#has"), SArr(SRef, SArr(ks[0].Sort, SBool)))
+			for _, l := range shape(u.Elem()) {
+				add(mapKey(t, "v:"+l.Path), SArr(SRef, SArr(ks[0].Sort, l.Sort)))
+			}
+		}
+		staticInside(u.Elem(), out, seen, depth+1)
+	case *types.Struct:
+		staticInside(t, out, seen, depth+1)
+	case *types.Array:
+		staticInside(u.Elem(), out, seen, depth+1)
+	}
+}
+
+func staticInside(t types.Type, out *[]heapKeySort, seen map[string]bool, depth int) {
+	if st, ok := t.Underlying().(*types.Struct); ok {
+		for i := 0; i < st.NumFields(); i++ {
+			staticKeys(st.Field(i).Type(), out, seen, depth+1)
+		}
+		return
+	}
+	staticKeys(t, out, seen, depth)
+}
+
+// mentionsUnbound: the clause uses a quantified constant of the contract for
+// which this call site has no instance.
+func mentionsUnbound(e ast.Expr, fas []GhostDecl, inst map[string]Val) bool {
+	found := false
+	ast.Inspect(e, func(n ast.Node) bool {
+		if id, ok := n.(*ast.Ident); ok {
+			for _, fa := range fas {
+				if fa.Name == id.Name {
+					if _, bound := inst[fa.Name]; !bound {
+						found = true
+					}
+				}
+			}
+		}
+		return !found
+	})
+	return found
+}
+
+// scalarElems: the element type has no references (pointers, maps, slices, interfaces).
+func scalarElems(t types.Type) bool {
+	defer func() { recover() }()
+	for _, l := range shape(t) {
+		if l.isRef() || strings.HasPrefix(l.Path, "#") || strings.Contains(l.Path, "#") {
+			return false
+		}
+	}
+	switch t.Underlying().(type) {
+	case *types.Basic:
+		return true
+	case *types.Struct, *types.Array:
+		return true
+	}
+	return false
+}
+
+// bvLitValue: the value of a bit-vector literal term.
+func bvLitValue(t Term) (int64, bool) {
+	s := t.S
+	if strings.HasPrefix(s, "(_ bv") {
+		rest := s[len("(_ bv"):]
+		if i := strings.Index(rest, " "); i > 0 {
+			if n, err := strconv.ParseInt(rest[:i], 10, 64); err == nil {
+				return n, true
+			}
+		}
+	}
+	return 0, false
+}
+
+// sliceContains: slices.Contains(s, v) for a slice of single-leaf scalars, as an
+// uninterpreted function of the slice's content, its length and the needle
+// (independent of which backing store holds the content).
+func (x *Exec) sliceContains(st *State, s, v Val) (Val, bool) {
+	sl, ok := s.T.Underlying().(*types.Slice)
+	if !ok || len(s.L) != 3 {
+		return Val{}, false
+	}
+	es := shape(sl.Elem())
+	if len(es) != 1 || es[0].isRef() {
+		return Val{}, false
+	}
+	vv := x.scalarize(x.materialize(v, sl.Elem()))
+	if len(vv.L) != 1 {
+		return Val{}, false
+	}
+	srt := SArr(SBV(64), SArr(SBV(64), es[0].Sort))
+	content := Select(x.heapGet(st, sliceKey(sl.Elem(), es[0].Path), srt), s.L[0])
+	r := x.c.App("slices_contains_"+sanitize(typeKey(sl.Elem())), SBool, content, s.L[1], vv.L[0])
+	return Val{T: types.Typ[types.Bool], L: []Term{r}}, true
+}
+
+// fmtOperands: the format and the (tag, data) pairs of the variadic operands of a
+// formatting call with a statically known number of operands. An operand that is
+// (a pointer to) an object holding secret fields makes the text depend on them.
+func (x *Exec) fmtOperands(st *State, args []Val, reach Term) ([]Term, int64, bool) {
+	if len(args) != 2 || len(args[1].L) != 3 {
+		return nil, 0, false
+	}
+	n, ok := bvLitValue(args[1].L[1])
+	if !ok || n < 0 || n > 8 {
+		return nil, 0, false
+	}
+	f0 := x.materialize(args[0], types.Typ[types.String])
+	ts := []Term{f0.L[0]}
+	var et types.Type = types.NewInterfaceType(nil, nil)
+	if sl, ok := args[1].T.Underlying().(*types.Slice); ok {
+		et = sl.Elem()
+	}
+	si := x.e.secretInfo()
+	for k := int64(0); k < n; k++ {
+		a := &Addr{Kind: addrElem, SliceID: args[1].L[0], Index: BVLit(k, 64), ElemT: et, FT: et}
+		ev := x.load(st, a, reach)
+		ts = append(ts, ev.L...)
+	}
+	// operands whose static type holds secret fields are formatted with those fields
+	if len(si.holders) > 0 {
+		for _, ot := range variadicOperandTypes(x.curCC) {
+			tk := typeKey(ot)
+			for h := range si.holders {
+				if tk == h || tk == "*"+h {
+					ts = append(ts, x.c.Named("TAINT_an_object_of_type_"+sanitize(h), SBV(64)))
+				}
+			}
+		}
+	}
+	return ts, n, true
+}
+
+func (x *Exec) allLeaves(args []Val) []Term {
+	var ts []Term
+	for _, a := range args {
+		if a.C != nil || a.T == nil {
+			continue
+		}
+		ts = append(ts, x.scalarize(a).L...)
+	}
+	return ts
+}
+
+// variadicOperandTypes: the static types of the operands the compiler packed
+// into the variadic slice of a call (`new [n]any` + stores of MakeInterface values).
+func variadicOperandTypes(cc *ssa.CallCommon) []types.Type {
+	if cc == nil || len(cc.Args) == 0 {
+		return nil
+	}
+	sl, ok := cc.Args[len(cc.Args)-1].(*ssa.Slice)
+	if !ok {
+		return nil
+	}
+	al, ok := sl.X.(*ssa.Alloc)
+	if !ok || al.Referrers() == nil {
+		return nil
+	}
+	var out []types.Type
+	for _, r := range *al.Referrers() {
+		ia, ok := r.(*ssa.IndexAddr)
+		if !ok || ia.Referrers() == nil {
+			continue
+		}
+		for _, rr := range *ia.Referrers() {
+			if stv, ok := rr.(*ssa.Store); ok {
+				if mi, ok := stv.Val.(*ssa.MakeInterface); ok {
+					out = append(out, mi.X.Type())
+				}
+			}
+		}
+	}
+	return out
 }
